@@ -7,7 +7,7 @@ byte stream recording every read, and the metamorphic equalities
 import re
 import sys
 import traceback
-from vf import common, x86space
+from vf import gnuref, common, x86space
 
 PROPERTY = 'C10'
 RULE = ('bytes: every opcode cell (1-byte, 0F, 0F38, 0F3A maps) x all 256 ModRM values x SIB classes x filler classes, with no prefix, '
@@ -74,13 +74,16 @@ def exc_key(stage, e, tb, extra=''):
     return '%s/%s/%s/%s%s' % (stage, type(e).__name__, site(tb), abstract_msg(e), ('/' + extra) if extra else '')
 
 
-def check_bytes(sh, b, cls=None, deep=True):
+def check_bytes(sh, b, cls=None, deep=True, attrib=None):
     from miasmx.arch.ia32_arch import x86mnemo
     wit = {'bytes': b.hex()}
+    if attrib:
+        wit['mode16'] = True
+        deep = False
     rec = Recorder(b)
     try:
         with common.alarm_guard(20):
-            ins = x86mnemo.dis(rec)
+            ins = x86mnemo.dis(rec, attrib) if attrib else x86mnemo.dis(rec)
     except common.alarm_guard.Fired:
         sh.counters['watchdog_fired'] += 1
         return None
@@ -271,6 +274,8 @@ def shards(tier, seed):
     for i in range(0, len(cl), per):
         out.append(('cells', i, per))
     out.append(('prefixes',))
+    out.append(('dupprefix',))
+    out.append(('mode16',))
     for i in range(16 if tier == 'quick' else 128):
         out.append(('randbytes', i))
     for mi in range(len(MNEMOS)):
@@ -304,6 +309,36 @@ def run_shard(shard, tier, seed):
         for cell in x86space.cells():
             for b, cls in x86space.strings_for_cell(cell, 'quick', seed, prefixes=pf, modrms=modrms, sibs=[0x24, 0x65], nfill=1):
                 check_bytes(sh, b, cls='pfx:%s' % cls[1], deep=False)
+    elif kind == 'mode16':
+        # the other configuration of the decoder: a 16-bit code segment
+        from miasmx.arch.ia32_reg import x86_afs
+        at = {'opmode': x86_afs.u16, 'admode': x86_afs.u16}
+        modrms = (0x00, 0x06, 0x44, 0x84, 0xc1, 0xd8)
+        for cell in x86space.cells((0, 1)):
+            for b, cls in x86space.strings_for_cell(cell, 'quick', seed, prefixes=[b'', b'\x66', b'\x67', b'\xf3', b'\x2e', b'\x66\x67'], modrms=modrms, sibs=[0x24], nfill=1):
+                check_bytes(sh, b, cls='m16:%02x%02x/p%s' % (cell[0], cell[1], cls[1]), attrib=at)
+    elif kind == 'dupprefix':
+        # a size prefix given twice is still one prefix: "the instruction" ends where the reference decoder says it ends, and the
+        # decoder may not consume bytes beyond it (for these strings the C01 comparison does not apply: superfluous prefixes are
+        # outside its quantifier)
+        modrms = (0x00, 0x05, 0x06, 0x44, 0x80, 0x84, 0xc1)
+        pf = [b'\x67\x67', b'\x66\x66', b'\x67\x66\x67', b'\x66\x67\x66', b'\x2e\x67\x67', b'\x67\x67\x67', b'\x66\x66\x66\x66']
+        items = []
+        for cell in x86space.cells((0, 1)):
+            for b, cls in x86space.strings_for_cell(cell, 'quick', seed, prefixes=pf, modrms=modrms, sibs=[0x24], nfill=1):
+                items.append(b)
+        ref = gnuref.objdump(items)
+        for b, (rl, rt) in zip(items, ref):
+            ins = check_bytes(sh, b, cls='dup:%s' % b[:2].hex(), deep=False)
+            if ins is None or rl == 0 or '(bad)' in rt or rl > len(b):
+                continue
+            if ins.l > rl:
+                npre = 0
+                while npre < len(b) and b[npre] in x86space.PREFIX_BYTES:
+                    npre += 1
+                from vf import x86ref
+                fam = 'MMX-SSE' if re.search(r'\b(x?mm\d)', rt) else ('mov-control-or-debug-register' if re.search(r'\b(cr|dr|db|tr)\d', rt) else x86ref.ref_mnemonic(rt))
+                sh.violation('over-read/repeated-prefix/%s/%s' % (b[:npre].hex(), fam), 'dis(%s) consumes %d bytes, the instruction (%s) has %d' % (b.hex(), ins.l, rt, rl), {'bytes': b.hex()})
     elif kind == 'randbytes':
         rng = common.rng_for(seed, 'C10rb', shard[1])
         for _ in range(3000 if tier == 'quick' else 8000):
@@ -377,7 +412,10 @@ def finalize(merged, tier, seed):
 
 def replay(w):
     sh = common.Shard()
-    if 'bytes' in w:
+    if 'bytes' in w and w.get('mode16'):
+        from miasmx.arch.ia32_reg import x86_afs
+        check_bytes(sh, bytes.fromhex(w['bytes']), attrib={'opmode': x86_afs.u16, 'admode': x86_afs.u16})
+    elif 'bytes' in w:
         check_bytes(sh, bytes.fromhex(w['bytes']), deep=True)
     else:
         check_text(sh, w['line'], w['syntax'])
